@@ -1394,3 +1394,40 @@ Proof.
   split; [exact (proj1 splice_canon_examples)|]. split; [vm_compute; reflexivity|]. split; [vm_compute; reflexivity|].
   split; [vm_compute; reflexivity|]. split; [eexists; split; vm_compute; reflexivity | vm_compute; reflexivity].
 Qed.
+
+(* 28. WHOLE-URL parser agreement for set_scheme (Proofs/C06_SpliceScheme.v).  Changing the scheme changes how
+   everything behind it is parsed, so it is a splice only inside one scheme class - which is all the setter allows on
+   canonical records (non-special -> non-special, special non-file -> special non-file).  For a RAW argument of the
+   class scheme_arg (a letter, then letters / digits / '+' '-' '.', ANY case; no ':' and no TAB/LF/CR) and a call that
+   keeps the port (port u' = port u: leaves out exactly the coupling "a port equal to the new default is dropped",
+   C06_couple), Parser::parse_url on  argument ++ old text from the ':' on  (splice_scheme) returns exactly the setter's
+   record, whose scheme is the lower-cased argument.  All four canonical classes (opaque, '/'-led without authority,
+   authority non-special, authority special non-file). *)
+From RU Require Import Proofs.C06_SpliceScheme.
+
+Theorem C06_splice_agreement_set_scheme : forall dbg hp hpo hd u x u', HostRT hp hpo hd -> Canon hp hpo hd u ->
+  scheme_arg x = true -> set_scheme dbg u x = Some (u', SOk) -> nlen (ser u') <= U32_MAX_P -> port u' = port u ->
+  Canon hp hpo hd u' /\ scheme u' = Some (lower_text x)
+  /\ parse_url dbg hp hpo hd None None (splice_scheme u x) = POk u'.
+Proof. intros dbg hp hpo hd u x u' HRT. exact (splice_agreement_set_scheme dbg hp hpo hd HRT u x u'). Qed.
+Check C06_splice_agreement_set_scheme : forall dbg hp hpo hd u x u', HostRT hp hpo hd -> Canon hp hpo hd u ->
+  scheme_arg x = true -> set_scheme dbg u x = Some (u', SOk) -> nlen (ser u') <= U32_MAX_P -> port u' = port u ->
+  Canon hp hpo hd u' /\ scheme u' = Some (lower_text x)
+  /\ parse_url dbg hp hpo hd None None (splice_scheme u x) = POk u'.
+Print Assumptions C06_splice_agreement_set_scheme.
+
+(* "http://u:p@h/p" -> set_scheme("WS") -> "ws://u:p@h/p" (splice "WS://u:p@h/p");
+   "a://h:80/p?q#f" -> set_scheme("B+c") -> "b+c://h:80/p?q#f" *)
+Example C06_splice_agreement_set_scheme_inhabited :
+  scheme_arg (B "WS") = true /\ scheme_arg (B "B+c") = true
+  /\ (exists u', set_scheme true sx_u (B "WS") = Some (u', SOk) /\ ser u' = B "ws://u:p@h/p" /\ port u' = port sx_u)
+  /\ splice_scheme sx_u (B "WS") = B "WS://u:p@h/p"
+  /\ (exists u', set_scheme true qx_u (B "B+c") = Some (u', SOk) /\ ser u' = B "b+c://h:80/p?q#f" /\ port u' = port qx_u)
+  /\ splice_scheme qx_u (B "B+c") = B "B+c://h:80/p?q#f".
+Proof.
+  split; [vm_compute; reflexivity|]. split; [vm_compute; reflexivity|].
+  split; [eexists; split; [vm_compute; reflexivity | split; vm_compute; reflexivity]|].
+  split; [vm_compute; reflexivity|].
+  split; [eexists; split; [vm_compute; reflexivity | split; vm_compute; reflexivity]|].
+  vm_compute; reflexivity.
+Qed.
